@@ -11,7 +11,7 @@ from hypothesis import strategies as st
 from spec import cqlterm
 from spec import values as V
 from spec.cqllex import LexError, lex
-from vlib.harness import hyp_part
+from vlib.harness import EnumPart, hyp_part
 
 PID = "C29"
 TITLE = "Simple-statement parameters are injection-safe and value-preserving"
@@ -32,8 +32,11 @@ RULE = ("Parameter values are built by construction for every type in Encoder.ma
         "Decimal->decimal, datetime->timestamp, date/Date->date, time/Time->time, Duration->duration, UUID->uuid, "
         "ipaddress->inet, list/tuple/generator->list, set->set, dict->map, ValueSequence->tuple) must equal what "
         "cqltypes.<Type>.to_binary(value, 4) sends.  Non-trivial: a string containing ' $ ; -- /* or non-ASCII text, a subclass "
-        "instance, a non-finite / >15-significant-digit / |exponent| > 20 number, a nested collection, or a value whose "
-        "magnitude exceeds 2^63.")
+        "instance, a non-finite / >15-significant-digit / |exponent| > 20 number, a datetime with a non-zero sub-second part, "
+        "a nested collection, or a value whose magnitude exceeds 2^63.  The enumerated part datetime-ms-grid binds, for the "
+        "whole-second bases 0, 1e9, 1091837578, -1e9, 2.2e9, 0001-01-01T00:00:00 and 9999-12-31T23:59:59 (naive and with "
+        "UTC offsets +01:00 / -05:30 where the UTC instant stays in range), every one of the 1000 millisecond offsets and 429 "
+        "offsets with a non-zero sub-millisecond part, and applies the same oracle (expected value = DateType.to_binary).")
 ASSUMPTIONS = [
     "spec/cqllex.py + spec/cqlterm.py stand for Cassandra's lexer, term grammar and literal conversion (Constants.Literal / AbstractType.fromString); server time zone UTC",
     "the prepared path is cqltypes.<Type>.to_binary(value, protocol 4) of the type the encoder targets, decoded by spec.values.decode; cases it refuses (raises) are skipped and counted under 'prepared:refused'",
@@ -271,6 +274,8 @@ def _nontrivial(d):
         if k == "float" and (isinstance(n["v"], str) or "e" in repr(n["v"]) or len(repr(n["v"])) > 12):
             return True
         if k == "decimal":
+            return True
+        if k in ("datetime",) and n["us"] != 0:
             return True
         if k == "int" and abs(n["v"]) >= 2 ** 63:
             return True
@@ -712,6 +717,43 @@ def _short(v):
     return s if len(s) < 200 else s[:200] + "..."
 
 
+# ---------------------------------------------------------------------------------------------
+# part: datetime millisecond grid (exhaustive over its stated domain)
+# ---------------------------------------------------------------------------------------------
+_GRID_BASES = [("epoch", 0), ("1e9", 10 ** 9), ("2004-08-07T00:12:58", 1091837578), ("pre-1970", -10 ** 9), ("post-2038", 2200000000),
+               ("year-1", (1 - _EPOCH_ORD) * 86400), ("year-9999", (3652059 - _EPOCH_ORD) * 86400 + 86399)]
+
+
+def _grid_chunks():
+    out = []
+    for name, base in _GRID_BASES:
+        tzs = [None, 60, -330]
+        if name == "year-1":
+            tzs = [None, -330]          # a positive offset would put the UTC instant before year 1 (both paths refuse)
+        if name == "year-9999":
+            tzs = [None, 60]
+        for tz in tzs:
+            out.append({"name": name, "base": base, "tz": tz})
+    return out
+
+
+def _grid_cases(chunk):
+    base, tz = chunk["base"], chunk["tz"]
+    local = base + (tz or 0) * 60           # wall-clock seconds of the aware datetime whose UTC instant is `base`
+    if not (1 - _EPOCH_ORD) * 86400 <= local <= (3652059 - _EPOCH_ORD) * 86400 + 86399:
+        local = base
+    ordinal, sod = _EPOCH_ORD + local // 86400, local % 86400
+    templates = ["insert", "update", "select"]
+    for ms in range(1000):
+        yield {"params": [{"py": "datetime", "ord": ordinal, "sod": sod, "us": ms * 1000, "tz": tz}],
+               "named": ms % 2 == 1, "template": templates[ms % 3]}
+    for ms in range(0, 1000, 7):
+        for r in (1, 500, 999):
+            yield {"params": [{"py": "datetime", "ord": ordinal, "sod": sod, "us": ms * 1000 + r, "tz": tz}],
+                   "named": ms % 2 == 1, "template": templates[ms % 3]}
+
+
 def parts(tier):
     cqlterm.self_test()     # fixed vectors of the reference lexer/parser/denotation: a disagreement is a harness error
-    return [hyp_part("params", s_case, interpret, tier, quick=500, thorough=3000, quick_shards=8)]
+    return [hyp_part("params", s_case, interpret, tier, quick=500, thorough=3000, quick_shards=8),
+            EnumPart("datetime-ms-grid", _grid_chunks(), _grid_cases, interpret)]
